@@ -605,7 +605,7 @@ func (p *Process) StartWith(ctx context.Context, element schema.FlowNodeInterfac
 		eventNode.Trigger(ctx)
 
 		// StartAll cease flow monitor
-		sender := p.tracer.RegisterSender()
+		sender := p.subTracer.RegisterSender()
 		go p.ceaseFlowMonitor(p.subTracer)(ctx, sender)
 		p.tracer.Send(InstantiationTrace{InstanceId: p.id})
 
